@@ -82,8 +82,9 @@ def oracle_element(v, i, b):
     """The property on the implementation: returns None if it holds, else a description."""
     try:
         r = impl_set(v, i, b)
+        impl_get(r, i)
     except Exception as ex:
-        return f"setting {FLAGS[i]}={b} on value {v} raises {ex!r}"
+        return f"setting {FLAGS[i]}={b} on value {v:#06x} and reading it back raises {ex!r}"
     if impl_get(r, i) != b:
         return f"read back {impl_get(r, i)} after setting {FLAGS[i]}={b} on value {v}"
     if (r ^ v) & ~MASKS[i] & 0xFFFF or not (0 <= r < 65536):
